@@ -159,7 +159,8 @@ impl PoolRun {
         }
     }
 
-    pub fn provide(&mut self, ui: usize, d: [u128; 2], recv: usize, slip: Option<u128>) -> (Res, String, String) {
+    /// `rev`: the caller lists the two assets in the reverse of the pair's own order (the same deposit)
+    pub fn provide(&mut self, ui: usize, d: [u128; 2], recv: usize, slip: Option<u128>, rev: bool) -> (Res, String, String) {
         let u = self.user(ui);
         let mut funds: Vec<Coin> = vec![];
         for i in 0..2 {
@@ -174,7 +175,7 @@ impl PoolRun {
         }
         funds.sort_by(|a, b| a.denom.cmp(&b.denom));
         let msg = ExecuteMsg::ProvideLiquidity {
-            assets: [self.assets[0].asset(d[0]), self.assets[1].asset(d[1])],
+            assets: if rev { [self.assets[1].asset(d[1]), self.assets[0].asset(d[0])] } else { [self.assets[0].asset(d[0]), self.assets[1].asset(d[1])] },
             slippage_tolerance: slip.map(dec_atomics),
             receiver: if recv == ui { None } else { Some(self.users[recv].to_string()) },
         };
@@ -360,12 +361,13 @@ pub fn run_random(rec: &mut Rec, seed: u64, run: u64, nops: usize, stable: bool)
                     4 => Some(1_000_000_000_000_000_001),
                     _ => None,
                 };
-                let (rs, dpre, dpost) = p.provide(ui, d, recv, slip);
+                let rev = r.gen_bool(0.3);
+                let (rs, dpre, dpost) = p.provide(ui, d, recv, slip, rev);
                 let minted = rs.attr("provide_liquidity", "share").unwrap_or("0".into());
                 last_minted = if rs.is_ok() && recv == ui { Some((ui, minted.parse().unwrap_or(0))) } else { None };
                 ev.insert("ev".into(), json!("provide"));
                 ev.insert("actor".into(), json!(USERS[ui]));
-                ev.insert("args".into(), json!({"d": sv(&d), "recv": USERS[recv], "slip": opt_s(slip)}));
+                ev.insert("args".into(), json!({"d": sv(&d), "recv": USERS[recv], "slip": opt_s(slip), "rev": rev}));
                 ev.insert("res".into(), json!(rs.tag()));
                 ev.insert("err".into(), jerr(&rs.err()));
                 ev.insert("out".into(), json!({"minted": minted}));
